@@ -1030,7 +1030,7 @@ fn compute_cut_tt(_aig: &AigModule, _root: u32, _cut: &Cut) -> Option<Tt4> {
 }
 pub mod hx_rewrite_lib {
     use super::*;
-    use crate::npn4::hx_npn4::{any_pattern_upto3, any_transform};
+    use crate::npn4::hx_npn4::{any_pattern, any_transform};
     use crate::npn4::NpnTransform;
     use crate::oracle;
     use crate::sem::any_edge;
@@ -1048,8 +1048,9 @@ pub mod hx_rewrite_lib {
         pat: AigPattern,
     }
     /// nl in 0..=5 strictly ascending leaves over old nodes 0..=5, a symbolic cone size, ANY table tt for the cut, t ANY transform of the group with
-    /// canonical = t.apply(tt) (real apply: npn_canonical's contract), pattern ANY well-formed pattern with <= 3 gates and pat.tt() == canonical (library lemma of unit npn)
-    fn any_case(slot: usize) -> CutCase {
+    /// canonical = t.apply(tt) (real apply: npn_canonical's contract), pattern ANY well-formed pattern with `gates` gates and pat.tt() == canonical (library lemma of unit npn).
+    /// `gates` is concrete per harness (0..=3 = MAX_ANDS all covered): AigPattern::eval / instantiate_pattern allocate Vecs of that size, symbolic sizes blow up CBMC's heap model
+    fn any_case(slot: usize, gates: u8) -> CutCase {
         let nl: u8 = kani::any();
         let leaves: [u32; 5] = kani::any();
         let cone_size: u32 = kani::any();
@@ -1062,7 +1063,7 @@ pub mod hx_rewrite_lib {
         let tt: Tt4 = kani::any();
         let t = any_transform();
         let canonical = t.apply(tt);
-        let pat = any_pattern_upto3();
+        let pat = any_pattern(gates);
         kani::assume(pat.tt() == canonical);
         assert!(wf_pattern(&pat));
         let tt_known: bool = kani::any();
@@ -1136,10 +1137,9 @@ pub mod hx_rewrite_lib {
     }
     /// Some(e) ==> value(e) == tt(values of new_edge[leaf_i]) for every assignment, for every number of leaves and gates, every (canonical, t, pattern)
     /// allowed by unit npn's contracts; cuts with < 2 or > 4 leaves are never used; older nodes of the new AIG are untouched
-    #[vp_proof(17)]
-    pub fn try_library_rewrite_computes_cut_function() {
+    fn one_cut(gates: u8) {
         oracle::reset();
-        let c = any_case(0);
+        let c = any_case(0, gates);
         let (mut new_aig, ne) = any_dest();
         let before = new_aig.vals;
         let old = AigModule::with_values([false; VN], 1);
@@ -1154,11 +1154,24 @@ pub mod hx_rewrite_lib {
             assert!(new_aig.value(e) == want, "try_library_rewrite: the replacement edge does not compute the cut function on the mapped leaves");
         }
     }
+    #[vp_proof(17)]
+    pub fn try_library_rewrite_computes_cut_function_0_1_gates() {
+        one_cut(0);
+        one_cut(1);
+    }
+    #[vp_proof(17)]
+    pub fn try_library_rewrite_computes_cut_function_2_gates() {
+        one_cut(2);
+    }
+    #[vp_proof(17)]
+    pub fn try_library_rewrite_computes_cut_function_3_gates() {
+        one_cut(3);
+    }
     /// canary: a three-gate replacement over four leaves is reachable (must FAIL)
     #[vp_proof(17)]
     pub fn canary_try_library_rewrite_replaces() {
         oracle::reset();
-        let c = any_case(0);
+        let c = any_case(0, 3);
         let (mut new_aig, ne) = any_dest();
         let old = AigModule::with_values([false; VN], 1);
         let cuts = [cut_of(&c)];
@@ -1169,8 +1182,8 @@ pub mod hx_rewrite_lib {
     #[vp_proof(17)]
     pub fn try_library_rewrite_best_of_two_cuts() {
         oracle::reset();
-        let c0 = any_case(0);
-        let c1 = any_case(1);
+        let c0 = any_case(0, 1);
+        let c1 = any_case(1, 2);
         // both cuts reach compute_cut_tt (the oracle hands out slots in call order); the skip conditions are covered by the one-cut harness
         kani::assume(c0.nl >= 2 && c0.nl <= 4 && c1.nl >= 2 && c1.nl <= 4);
         let (mut new_aig, ne) = any_dest();
@@ -1224,6 +1237,7 @@ pub mod oracle {
 
     // per slot: word 0 = tt_known | tt<<8 | canonical<<24 | in_neg<<40 | out_neg<<48 ; word 1 = perm (4 x 8 bit) | in_library<<32 | gates<<40 ; word 2 = pattern edges
     static W: [[AtomicU64; 3]; 2] = [[AtomicU64::new(0), AtomicU64::new(0), AtomicU64::new(0)], [AtomicU64::new(0), AtomicU64::new(0), AtomicU64::new(0)]];
+    static GATES: [AtomicUsize; 2] = [AtomicUsize::new(0), AtomicUsize::new(0)];
     static TT_CALLS: AtomicUsize = AtomicUsize::new(0);
     static CANON_CALLS: AtomicUsize = AtomicUsize::new(0);
     static LOOKUP_CALLS: AtomicUsize = AtomicUsize::new(0);
@@ -1244,7 +1258,8 @@ pub mod oracle {
         let mut w1 = (t.perm[0] as u64) | ((t.perm[1] as u64) << 8) | ((t.perm[2] as u64) << 16) | ((t.perm[3] as u64) << 24);
         let mut w2 = 0u64;
         if let Some(p) = pat {
-            w1 |= (1u64 << 32) | ((p.ands.len() as u64) << 40);
+            w1 |= 1u64 << 32;
+            GATES[slot].store(p.ands.len(), Relaxed);
             let mut k = 0;
             while k < p.ands.len() && k < 3 {
                 w2 |= (enc_edge(p.ands[k].0) | (enc_edge(p.ands[k].1) << 4)) << (8 * k);
@@ -1280,15 +1295,14 @@ pub mod oracle {
         if (w1 >> 32) & 1 == 0 {
             return None;
         }
-        let n = ((w1 >> 40) & 3) as usize;
+        let n = GATES[k].load(Relaxed);
         let mut ands = Vec::with_capacity(3);
-        let mut k = 0;
-        while k < 3 {
-            let g = w2 >> (8 * k);
+        let mut j = 0;
+        while j < n {
+            let g = w2 >> (8 * j);
             ands.push((dec_edge(g), dec_edge(g >> 4)));
-            k += 1;
+            j += 1;
         }
-        ands.truncate(n);
         Some(Box::leak(Box::new(AigPattern { ands, output: dec_edge(w2 >> 24) })))
     }
 }
